@@ -389,9 +389,13 @@ func (f *Frame) enterLoop(li *loopInfo, b *ssa.BasicBlock, preds []*ssa.BasicBlo
 		phis = append(phis, phi)
 		entryVals[phi] = f.phiValue(phi, preds, conds).T
 	}
+	if spec != nil && spec.HasModifies && f.top {
+		li.preHeap, li.bound = cur.clone(), cur.alloc
+	}
 	// 2. invariant holds on entry
 	if spec != nil {
 		env := f.invEnv(f.loopNames(li, entryVals), cur)
+		env.loopPre, env.loopBound = li.preHeap, li.bound
 		for i, cl := range spec.Invariants {
 			t, err := env.trBool(cl.Expr)
 			lab := cl.Label
@@ -415,6 +419,52 @@ func (f *Frame) enterLoop(li *loopInfo, b *ssa.BasicBlock, preds []*ssa.BasicBlo
 	// frame relative to function entry for pre-existing locations
 	entryBound := "alloc0"
 	preAlloc := cur.alloc
+	preHeap := (*State)(nil)
+	if spec != nil && spec.HasModifies && f.top {
+		// the loop has its own frame: locations that exist at loop entry and are
+		// not listed are unchanged at the loop head (relative to the loop-entry
+		// heap); every write inside the loop is checked against this frame, and
+		// the frame itself against the enclosing one
+		env := f.invEnv(f.loopNames(li, entryVals), cur)
+		env.loopPre, env.loopBound = li.preHeap, li.bound
+		var locs []modLoc
+		for _, me := range spec.Modifies {
+			func() {
+				defer func() {
+					if r := recover(); r != nil {
+						if se, ok := r.(specErr); ok {
+							vc.specErrs = append(vc.specErrs, fmt.Sprintf("loop %d modifies %s: %s", li.ordinal, me, se.msg))
+							return
+						}
+						panic(r)
+					}
+				}()
+				locs = append(locs, env.lvalue(me)...)
+			}()
+		}
+		if vc.frameChecked() {
+			for _, l := range locs {
+				var goal string
+				switch {
+				case l.Fields != nil:
+					var gs []string
+					for _, fld := range l.Fields {
+						gs = append(gs, vc.allowedByFrame(l.Comp, l.Ref, fld, ""))
+					}
+					goal = and(gs...)
+				case l.whole() && !l.Comp.IsArr:
+					goal = vc.allowedByFrame(l.Comp, l.Ref, -2, "")
+				default:
+					goal = vc.allowedRange(l)
+				}
+				vc.oblige("frame", fmt.Sprintf("loop%d:%s", li.ordinal, l.Src), at, goal, "", "loop frame is within the enclosing frame", vc.con.Serves)
+			}
+		}
+		frameLocs, framed = locs, true
+		entryBound = preAlloc
+		preHeap = cur.clone()
+		vc.loopFrames = append(vc.loopFrames, &loopFrame{li: li, locs: locs, bound: preAlloc})
+	}
 	if eff.all {
 		f.havocComps(nil, true, nil, false, at, cur, "loop")
 	} else {
@@ -426,8 +476,13 @@ func (f *Frame) enterLoop(li *loopInfo, b *ssa.BasicBlock, preds []*ssa.BasicBlo
 			vc.heapTypeInv(c, hn, vc.curBlk, na)
 			if framed {
 				ho := vc.heapOf(f.entryOfTop(), c)
+				origin := "loop frame (function modifies clause)"
+				if preHeap != nil {
+					ho = vc.heapOf(preHeap, c)
+					origin = "loop frame (loop modifies clause)"
+				}
 				for _, fact := range vc.frameFacts(c, hn, ho, entryBound, frameLocs) {
-					vc.assume(at, fact, "loop frame (function modifies clause)")
+					vc.assume(at, fact, origin)
 				}
 			}
 			cur.heap[c.Name] = hn
@@ -452,6 +507,7 @@ func (f *Frame) enterLoop(li *loopInfo, b *ssa.BasicBlock, preds []*ssa.BasicBlo
 	// 4. assume the invariant in the havocked state
 	if spec != nil {
 		env := f.invEnv(f.loopNames(li, hvals), cur)
+		env.loopPre, env.loopBound = li.preHeap, li.bound
 		for _, cl := range spec.Invariants {
 			t, err := env.trBool(cl.Expr)
 			if err != nil {
@@ -516,6 +572,7 @@ func (f *Frame) checkLoopBack(li *loopInfo, from *ssa.BasicBlock, cond string, s
 		return
 	}
 	env := f.invEnv(f.loopNames(li, vals), st)
+	env.loopPre, env.loopBound = li.preHeap, li.bound
 	for i, cl := range spec.Invariants {
 		t, err := env.trBool(cl.Expr)
 		if err != nil {
